@@ -3,13 +3,10 @@ package props
 import (
 	"bytes"
 	"context"
-	"encoding/base64"
-	"encoding/json"
 	"errors"
 	"fmt"
 	"math"
 	"net/http"
-	"net/url"
 	"strings"
 
 	"cuelabs.dev/go/oci/ociregistry"
@@ -63,30 +60,6 @@ func init() {
 	register(&core.Scenario{Name: "c04-unify-member-loses-write", Property: "C04", Weight: 2, Bubble: true, LeakIsViolation: true, Run: func(env *core.Env) { c04(env, "unify-memberfault", false) }})
 }
 
-// rawUploadID peels the proxy layers off an upload ID until the backend's own id remains.
-func rawUploadID(id string) string {
-	for i := 0; i < 4; i++ {
-		// ociunify: base64(JSON [id of member 0, id of member 1])
-		if b, err := base64.RawURLEncoding.DecodeString(id); err == nil && len(b) > 0 && b[0] == '[' {
-			var ids []string
-			if json.Unmarshal(b, &ids) == nil && len(ids) == 2 {
-				return ids[0]
-			}
-		}
-		u, err := url.Parse(id)
-		if err != nil || !strings.Contains(u.Path, "/blobs/uploads/") {
-			return id
-		}
-		seg := u.Path[strings.LastIndex(u.Path, "/")+1:]
-		b, err := base64.RawURLEncoding.DecodeString(seg)
-		if err != nil {
-			return id
-		}
-		id = string(b)
-	}
-	return id
-}
-
 type c04run struct {
 	env         *core.Env
 	ctx         context.Context
@@ -103,11 +76,29 @@ type c04run struct {
 	fired       bool
 	direct      bool
 	calls       int // client calls since the last fault (liveness)
+	sessFrom    int // how many uploads the backend had started before the current session
+	sessTo      int // ... and when the call that started it had returned
 }
 
-// truth returns the number of bytes the registry holds for the session.
+// truth returns the number of bytes the registry holds for the session. The session
+// is found in the backend by when it was started, not by taking the caller's upload
+// id apart (how the layers in between spell ids is their business). A duplicated
+// start request leaves a second, empty session behind that nobody knows the id of:
+// of the sessions started by the current start call, the one in use is the largest.
 func (r *c04run) truth() int64 {
-	w, err := r.st.Mem.PushBlobChunkedResume(r.ctx, r.repo, rawUploadID(r.id), -1, 0)
+	ids := r.st.Uploads.between(r.sessFrom, r.sessTo, r.repo)
+	if len(ids) == 0 {
+		core.Harnessf("the backend has not started an upload for this session")
+	}
+	size := int64(-1)
+	for _, id := range ids {
+		size = max(size, backendUploadSize(r.ctx, r.st.Mem, r.repo, id))
+	}
+	return size
+}
+
+func backendUploadSize(ctx context.Context, mem *ocimem.Registry, repo, id string) int64 {
+	w, err := mem.PushBlobChunkedResume(ctx, repo, id, -1, 0)
 	if err != nil {
 		core.Harnessf("cannot query backend upload: %v", err)
 	}
@@ -150,7 +141,9 @@ func (r *c04run) recoverSession(why string) int64 {
 				r.memberFault = false
 				r.badWriter = false
 				r.env.Probe("c04:restart-after-member-divergence")
+				r.sessFrom = r.st.Uploads.count()
 				nw, err := r.st.Reg.PushBlobChunked(r.ctx, r.repo, r.hint)
+				r.sessTo = r.st.Uploads.count()
 				if err != nil {
 					r.env.Failf("C04/start/unexpected-failure", "PushBlobChunked (restart) failed: %v", err)
 				}
@@ -243,8 +236,9 @@ func c04(env *core.Env, kind string, faulty bool) {
 		if c.Bool("concurrent", 1, 2) {
 			pol = ociunify.ReadConcurrent
 		}
-		r.st = &stack{Mem: m0, Mem1: m1, Tracker: reg.NewTracker(), Desc: kind,
-			Reg: ociunify.New(m0, reg.Wrap(m1, reg.NewTracker(), plan), &ociunify.Options{ReadPolicy: pol})}
+		spy := &uploadSpy{Interface: m0}
+		r.st = &stack{Mem: m0, Mem1: m1, Tracker: reg.NewTracker(), Desc: kind, Uploads: spy,
+			Reg: ociunify.New(spy, reg.Wrap(m1, reg.NewTracker(), plan), &ociunify.Options{ReadPolicy: pol})}
 		r.direct = true
 	} else {
 		r.st = buildStack(env, o)
@@ -276,7 +270,9 @@ func c04(env *core.Env, kind string, faulty bool) {
 		eff = 100
 	}
 	// start
+	r.sessFrom = r.st.Uploads.count()
 	w, err := r.st.Reg.PushBlobChunked(r.ctx, r.repo, r.hint)
+	r.sessTo = r.st.Uploads.count()
 	if err != nil {
 		env.Failf("C04/start/unexpected-failure", "PushBlobChunked failed: %v", err)
 	}
@@ -600,9 +596,10 @@ func c04overtaken(env *core.Env, kind string) {
 	c := env.C
 	ctx := context.Background()
 	mem := ocimem.New()
-	var r ociregistry.Interface = mem
+	spy := &uploadSpy{Interface: mem}
+	var r ociregistry.Interface = spy
 	if kind != "mem" {
-		r, _ = httpHop(env, mem, &stackOpts{}, "hop")
+		r, _ = httpHop(env, spy, &stackOpts{}, "hop")
 	}
 	repo := repoNames[c.Int("repo", len(repoNames))]
 	base := c.Bytes("base", []int{0, 1, 5, 300}[c.Int("baselen", 4)])
@@ -669,11 +666,11 @@ func c04overtaken(env *core.Env, kind string) {
 	env.Op("overtaken:" + kind)
 	env.Sample("%s: upload of %d bytes, writers resumed at offsets %d and %d; one writes %d bytes, then the other writes %d", kind, n, offA, offB, len(x), len(y))
 	held := func() int64 {
-		w, err := mem.PushBlobChunkedResume(ctx, repo, rawUploadID(id), -1, 0)
-		if err != nil {
-			core.Harnessf("cannot query backend upload: %v", err)
+		ids := spy.between(0, -1, repo)
+		if len(ids) != 1 {
+			core.Harnessf("the backend started %d uploads, want 1", len(ids))
 		}
-		return w.Size()
+		return backendUploadSize(ctx, mem, repo, ids[0])
 	}
 	// (the registry is not asked for its size here: on the in-memory registry the
 	// question itself is a resume and would interfere with the offsets under test)
@@ -744,19 +741,35 @@ func c04concurrentPatches(env *core.Env) {
 			return &shadowWriter{BlobWriter: w, shadow: &shadow}, nil
 		},
 	}
+	spy := &uploadSpy{Interface: mem}
+	backend.PushBlobChunked_ = spy.PushBlobChunked
 	handler := ociserver.New(backend, nil)
 	repo := repoNames[c.Int("repo", len(repoNames))]
 	L := []int{1, 3, 17}[c.Int("chunklen", 3)]
 	base := c.Bytes("base", c.Int("basechunks", 3)*L)
-	w0, err := mem.PushBlobChunked(ctx, repo, 0)
+	// The upload is started through the server, so that its id is whatever this server
+	// hands to clients; the base content goes into the backend directly (the shadow
+	// copy is of what the competing requests add).
+	cl0, err := newClient(&simnet.Transport{Env: env, Handler: handler}, 0)
 	if err != nil {
 		core.Harnessf("%v", err)
 	}
-	if len(base) > 0 {
-		w0.Write(base)
+	w0, err := cl0.PushBlobChunked(ctx, repo, 0)
+	if err != nil {
+		env.Failf("C04/start/unexpected-failure", "PushBlobChunked failed: %v", err)
 	}
-	rawID := w0.ID()
-	id := "/v2/" + repo + "/blobs/uploads/" + base64.RawURLEncoding.EncodeToString([]byte(rawID))
+	id := w0.ID()
+	if ids := spy.between(0, -1, repo); len(ids) != 1 {
+		core.Harnessf("the backend started %d uploads, want 1", len(ids))
+	} else if len(base) > 0 {
+		wb, err := mem.PushBlobChunkedResume(ctx, repo, ids[0], 0, 0)
+		if err != nil {
+			core.Harnessf("%v", err)
+		}
+		if _, err := wb.Write(base); err != nil {
+			core.Harnessf("%v", err)
+		}
+	}
 	ntasks := c.Range("ntasks", 2, 4)
 	type sent struct {
 		off    int64
@@ -864,7 +877,7 @@ func c04concurrentPatches(env *core.Env) {
 				}
 			}
 		}
-		w, err := mem.PushBlobChunkedResume(ctx, repo, rawID, -1, 0)
+		w, err := mem.PushBlobChunkedResume(ctx, repo, spy.between(0, -1, repo)[0], -1, 0)
 		if err != nil {
 			core.Harnessf("%v", err)
 		}
